@@ -39,11 +39,14 @@ DIMS = {'toKelvin': '[temperature]', 'toCelcius': '[temperature]', 'toInvAngstro
         'toConcentration': '[substance]/[length]**3', 'toVolumeFraction': ''}
 UNITS = {'toKelvin': 'kelvin', 'toCelcius': 'degree_Celsius', 'toInvAngstrom': '1 / angstrom', 'toInvNanometer': '1 / nanometer', 'toConcentration': 'mole / liter', 'toVolumeFraction': 'dimensionless'}
 
-def call(uc, meth, x, d):
+ARGNAME = {'toKelvin': 'temperature', 'toCelcius': 'temperature', 'toInvAngstrom': 'wavenumber', 'toInvNanometer': 'wavenumber', 'toConcentration': 'density', 'toVolumeFraction': 'density'}
+def call(uc, meth, x, d, kw=False):
+    """kw: call by the documented argument names (uc.toVolumeFraction(density=rho, diameter=d)) instead of positionally"""
     f = getattr(uc, meth)
-    if meth != 'toVolumeFraction': return f(x)
+    if meth != 'toVolumeFraction': return f(**{ARGNAME[meth]: x}) if kw else f(x)
     if isinstance(d, list): d = np.array(d, dtype=float)[:np.size(x)] if np.size(x) > 1 else float(d[0])          # one diameter per site type
-    return f(x, d)
+    if kw == 'mixed': return f(x, diameter=d)
+    return f(density=x, diameter=d) if kw else f(x, d)
 
 def mag(q):
     return np.atleast_1d(np.asarray(q.magnitude if hasattr(q, 'magnitude') else q, dtype=float))
@@ -56,16 +59,17 @@ def suite_convert(ctx, case):
     ucs = [UnitConverter(num(c['dc'], c.get('numtype')), c['dc_unit'], 14.02, 'gram/mole', num(c['ec'], c.get('numtype')), c['ec_unit']) if c.get('positional')      # the documented positional order
            else UnitConverter(dc=num(c['dc'], c.get('numtype')), dc_unit=c['dc_unit'], ec=num(c['ec'], c.get('numtype')), ec_unit=c['ec_unit']) for c in convs]
     drv = ctx.drv
-    for ci, meth, arg, d in case['calls']:
+    for cl in case['calls']:
+        ci, meth, arg, d = cl[:4]; kw = cl[4] if len(cl) > 4 else False
         conv = convs[ci]; uc = ucs[ci]
-        sub = dict(case, calls=[[ci, meth, arg, d]])
-        if isinstance(arg, list): x = np.array(arg, dtype=int) if all(isinstance(v, int) for v in arg) else np.array(arg, dtype=float)
+        sub = dict(case, calls=[list(cl)])
+        if isinstance(arg, list): x = np.array(arg, dtype=int) if (arg and all(isinstance(v, int) for v in arg)) else np.array(arg, dtype=float)
         else: x = arg if isinstance(arg, int) else float(arg)
         x_before = np.array(x, dtype=float).copy() if isinstance(x, np.ndarray) else None
         try:
-            q = call(uc, meth, x, d)
+            q = call(uc, meth, x, d, kw)
         except Exception as e:
-            ctx.pred('convert', sub, False, '%s raised %s: %s' % (meth, type(e).__name__, str(e)[:100]), key='C17:raises:' + meth); continue
+            ctx.pred('convert', sub, False, '%s%s raised %s: %s' % (meth, ' called by argument name' if kw else '', type(e).__name__, str(e)[:100]), key='C17:raises:' + meth); continue
         if x_before is not None:
             ctx.pred('convert', sub, bool(np.array_equal(x, x_before)), '%s overwrote the array it was given' % meth, key='C17:purity')
             x = x_before.copy()
@@ -73,6 +77,9 @@ def suite_convert(ctx, case):
         ctx.pred('convert', sub, isq, '%s did not return a quantity' % meth, key='C17:quantity')
         if not isq: continue
         m = mag(q); xs = np.atleast_1d(np.asarray(x, dtype=float))
+        if xs.size == 0:
+            # an empty selection (rho[rho > 1.0]) converts to an empty quantity
+            ctx.pred('convert', sub, m.size == 0, '%s of an empty array returned %d values' % (meth, m.size), key='C17:elementwise'); continue
         dcM, ecJ = si(conv)
         if meth == 'toVolumeFraction':
             if isinstance(d, list): ml = ' '.join(drv.ask('uc.phi %s %s' % (f2h(dv), f2h(xv))) for dv, xv in zip((d[:xs.size] if xs.size > 1 else d[:1]), xs))
@@ -141,14 +148,15 @@ def generate(ctx):
         for _ in range(rng.randint(4, 10)):
             meth = rng.choice(METHODS)
             c0 = rng.random()
-            if c0 < 0.06: arg = rng.choice([0.0, 0, [0.0, 0.5, 1.0], [0, 1, 2]])                 # the boundary value 0 (a ramp np.linspace(0, 2, 5))
+            if c0 < 0.03: arg = []                                                                # an empty selection
+            elif c0 < 0.08: arg = rng.choice([0.0, 0, [0.0, 0.5, 1.0], [0, 1, 2]])                 # the boundary value 0 (a ramp np.linspace(0, 2, 5))
             elif c0 < 0.5: arg = float('%.8g' % (10 ** rng.uniform(-3, 2)))
             elif c0 < 0.6: arg = rng.randint(1, 40)                                              # a Python int
             elif c0 < 0.72: arg = [rng.randint(1, 40) for _ in range(rng.randint(2, 6))]          # an integer-typed array (np.arange(1, 5))
             else: arg = [float('%.8g' % (10 ** rng.uniform(-3, 2))) for _ in range(rng.randint(2, 6))]
             dd = float('%.6g' % rng.uniform(0.3, 3.0))
             if meth == 'toVolumeFraction' and rng.random() < 0.4: dd = rng.choice([0.0, [float('%.4g' % rng.uniform(0.3, 3.0)) for _ in range(6)]])
-            calls.append([rng.randrange(len(convs)), meth, arg, dd])
+            calls.append([rng.randrange(len(convs)), meth, arg, dd, rng.choice([False, False, True, 'mixed'])])
         case = {'convs': convs, 'calls': calls, 'a': float('%.4g' % rng.uniform(-2, 3))}
         ctx.case('convert', case, True, tags=['nconv:%d' % len(convs)] + ['m:' + c[1] for c in calls] + ['dcu:' + c['dc_unit'] for c in convs] + ['ecu:' + c['ec_unit'] for c in convs])
         suite_convert(ctx, case)
